@@ -227,6 +227,43 @@ def _stress(ctx, rep, base):
     rep.evaluations += 2
 
 
+def _fork_inherits(ctx, rep, base):
+    """a lock object that was used before the process forked: afterwards parent and child contend through their copies of it"""
+    from datashard.file_lock import FileLock
+    d = os.path.join(base, "fork")
+    os.makedirs(d)
+    for used_before in (True, False):
+        lk = FileLock(os.path.join(d, f"f{int(used_before)}.lock"), timeout=0.5)
+        if used_before:
+            lk.acquire()
+            lk.release()
+        r1, w1 = os.pipe()
+        r2, w2 = os.pipe()
+        pid = os.fork()
+        if pid == 0:            # child: wait until the parent holds the lock, then try once without blocking
+            try:
+                os.read(r1, 1)
+                try:
+                    got = lk.acquire(blocking=False)
+                except BaseException:       # noqa: BLE001
+                    got = False
+                os.write(w2, b"1" if got else b"0")
+            finally:
+                os._exit(0)
+        lk.acquire()
+        os.write(w1, b"x")
+        ans = os.read(r2, 1)
+        os.waitpid(pid, 0)
+        for fd in (r1, w1, r2, w2):
+            os.close(fd)
+        rep.evaluations += 1
+        rep.nontrivial(["fork", used_before])
+        if ans == b"1":
+            rep.violate("C19:flock-two-holders", f"lock object {'used before' if used_before else 'created before'} fork(): the child acquired it while the "
+                        f"parent holds it", {"kind": "fork", "used_before_fork": used_before})
+        lk.release()
+
+
 def _flock_gap(ctx, rep, base):
     """the gap INSIDE one attempt: an acquirer that has opened the lock file but not yet flock()ed it, while others release / acquire.
     Every placement of {holder releases, third party acquires, holder re-acquires} inside that gap; at no point two holders."""
@@ -311,7 +348,8 @@ def _s3_timeout_bound(ctx, rep, model_ok=False):
     for timeout in (1.0, 5.0, 30.0):
         for seed in range(3 if not ctx.thorough else 12):
             vt = VTime()
-            fake = fakes3.FakeS3(clock=lambda vt=vt: dt.datetime.fromtimestamp(vt.t, dt.timezone.utc))
+            skew = (0.0, 3.0, -3.0)[seed % 3]       # the store's clock vs the clients' clock (LastModified may lie in a client's future)
+            fake = fakes3.FakeS3(clock=lambda vt=vt, skew=skew: dt.datetime.fromtimestamp(vt.t + skew, dt.timezone.utc))
             holder = S3LockProvider(fake, "bkt", "tbl/.locks/metadata.lock", timeout=timeout, lease_seconds=600)
             waiter = S3LockProvider(fake, "bkt", "tbl/.locks/metadata.lock", timeout=timeout, lease_seconds=600)
             for p in (holder, waiter):
@@ -332,7 +370,7 @@ def _s3_timeout_bound(ctx, rep, model_ok=False):
             try:
                 holder.acquire()
                 t0 = vt.t
-                case = {"kind": "s3-timeout", "timeout": timeout, "jitter_seed": seed}
+                case = {"kind": "s3-timeout", "timeout": timeout, "jitter_seed": seed, "store_clock_skew_s": skew}
                 rep.evaluations += 1
                 rep.nontrivial(["s3-timeout", timeout, seed])
                 try:
@@ -548,6 +586,7 @@ def run(ctx, model_ok):
                 rep.notes.append(f"flock case {i} stuck: {e}")
         _stress(ctx, rep, base)
         _flock_gap(ctx, rep, base)
+        _fork_inherits(ctx, rep, base)
         _s3_timeout_bound(ctx, rep, model_ok)
         try:
             _s3_case(ctx, rep, rng, model_ok, -1, directed=RELEASE_SPANS_TAKEOVER)
